@@ -93,7 +93,7 @@ static void sec_gravity(Ctx& c, uint64_t idx) {
     for (int n = 2; n <= std::min(N, 16); n += 2) { mult *= (G.a / G.am) * (G.a / G.am);
       Q cn = -mult * ng.Jn(n) / (G.rn == ref::HARM_FULL ? sqrtq((Q)(2 * n + 1)) : (Q)1);
       G.grav.c(n, 0) = dq(cn) * (1 + 1e-3 * r.uniform(-1, 1)) + (style == CS_DECAY ? G.grav.c(n, 0) : 0.0); } }
-  int Nc = r.coin(0.25) ? -1 : r.range(0, N), Mc = Nc < 0 ? -1 : (r.coin(0.7) ? Nc : r.range(0, Nc));
+  int Nc = r.coin(0.25) ? -1 : r.range(0, N + 3), Mc = Nc < 0 ? -1 : (r.coin(0.7) ? Nc : r.range(0, Nc));
   G.corr = gen_set(r, Nc, Mc, r.coin(0.8) ? CS_DECAY : CS_FLAT, 1.0 / em.corr_mult, false);
   int Nmax = -1, Mmax = -1, tmode = (int)r.below(6);
   if (tmode == 1) Nmax = r.range(0, N + 2); else if (tmode == 2) { Nmax = r.range(0, N + 2); Mmax = r.range(0, Nmax); } else if (tmode == 3) Mmax = r.range(0, N + 1);
@@ -109,7 +109,7 @@ static void sec_gravity(Ctx& c, uint64_t idx) {
   try { M.reset(new GravityModel(name, scratch().path, Nmax, Mmax)); }
   catch (const std::exception& e) { c.viol("oracle:C19/gravity/well-formed-file-rejected", cls0, J(mw).str("what", e.what())); rm_model(name, ".egm"); return; }
   rm_model(name, ".egm");
-  int D = std::max(N, 60);
+  int D = std::max(N + 3, 60);
   G.dg = dense_of(G.grav, Nmax, Mmax, D); G.dg.C[0] = 1;
   G.dc = dense_of(G.corr, Nmax, Mmax, D);
   G.nz = G.dg.nmx - (G.dg.nmx & 1);
